@@ -15,14 +15,19 @@ EXTENDS Integers, Sequences, FiniteSets, TLC, Json
 
 CONSTANTS TraceFile,
           ReadGas,    \* gas one state read must at least be backed by (20: a 50-gas Frontier SLOAD makes 1-2 reads)
-          Slack       \* reads allowed on top of that (2)
+          Slack,      \* reads allowed on top of that (2)
+          MemSlack    \* bytes of memory growth allowed on top of what the charge covers (64)
 Trace == ndJsonDeserialize(TraceFile)
 
 VARIABLES l, phase, bad, cnt
 vars == <<l, phase, bad, cnt>>
-Init == l = 1 /\ phase = "rest" /\ bad = <<>> /\ cnt = [runs |-> 0, work |-> 0, journal |-> 0, maxreads |-> 0, failedruns |-> 0]
+Init == l = 1 /\ phase = "rest" /\ bad = <<>> /\ cnt = [runs |-> 0, work |-> 0, journal |-> 0, maxreads |-> 0, failedruns |-> 0, grows |-> 0, biggrows |-> 0]
 
-WorkOK(e) == e.cost < 0 \/ (e.reads + e.writes) * ReadGas <= e.cost + Slack * ReadGas
+\* Memory: every word by which an instruction grows its frame's memory costs at least 3 gas (the linear term of the expansion price),
+\* whatever the instruction.  For a call-family instruction the gas handed to the callee (e.fwd, at most 2300 of it a stipend that was not
+\* charged) is part of the reported cost but pays for nothing.
+MemOK(e) == e.cost < 0 \/ e.grow <= 0 \/ 3 * e.grow <= 32 * (e.cost - e.fwd + 2300) + 3 * MemSlack
+WorkOK(e) == (e.cost < 0 \/ (e.reads + e.writes) * ReadGas <= e.cost + Slack * ReadGas) /\ MemOK(e)
 Add(c, e) == bad' = IF Len(bad) < 30 THEN Append(bad, [c |-> c, l |-> l, e |-> e]) ELSE bad
 
 Next ==
@@ -36,7 +41,8 @@ Next ==
        [] e.k = "work" -> /\ UNCHANGED phase
                           /\ (IF WorkOK(e) THEN UNCHANGED bad ELSE Add("work", e))
                           /\ cnt' = [cnt EXCEPT !.work = @ + 1, !.journal = @ + (IF e.op >= 224 /\ e.op <= 231 THEN 1 ELSE 0),
-                                                !.maxreads = IF e.reads > @ THEN e.reads ELSE @]
+                                                !.maxreads = IF e.reads > @ THEN e.reads ELSE @,
+                                                !.grows = @ + (IF e.grow > 0 THEN 1 ELSE 0), !.biggrows = @ + (IF e.grow >= 65536 THEN 1 ELSE 0)]
        [] e.k = "probe" -> /\ phase' = "rest"
                            /\ (IF e.cursornil = 1 /\ e.start = 1 THEN UNCHANGED bad ELSE Add("rest", e))
                            /\ UNCHANGED cnt
